@@ -134,25 +134,25 @@ Definition isize (long : bool) (i : instr) : Z :=
 (* ---------- layout ---------- *)
 Definition long_at (ws : list bool) (k : nat) : bool := nth k ws true.
 
-(* bytes taken by the first k instructions of P, which carry the indices k0, k0+1, ... *)
-Fixpoint off_go (ws : list bool) (k0 : nat) (P : code) (k : nat) : Z :=
+(* bytes taken by the first k instructions of P; ws runs along with P (hd ws = width of the first instruction) *)
+Fixpoint off_go (ws : list bool) (P : code) (k : nat) : Z :=
   match k, P with
-  | S k', i :: P' => isize (long_at ws k0) i + off_go ws (S k0) P' k'
+  | S k', i :: P' => isize (hd true ws) i + off_go (tl ws) P' k'
   | _, _ => 0
   end.
-Definition off (ws : list bool) (P : code) (k : nat) : Z := off_go ws 0 P k.
+Definition off (ws : list bool) (P : code) (k : nat) : Z := off_go ws P k.
 
-Fixpoint asm_go (tgt : nat -> Z) (n : nat) (ws : list bool) (k0 : nat) (o : Z) (P : code) : option (list Z) :=
+Fixpoint asm_go (tgt : nat -> Z) (n : nat) (ws : list bool) (o : Z) (P : code) : option (list Z) :=
   match P with
   | [] => Some []
   | i :: P' =>
-      dO (op, ps) <- enc tgt n o (long_at ws k0) i;
-      dO r <- asm_go tgt n ws (S k0) (o + isize (long_at ws k0) i) P';
+      dO (op, ps) <- enc tgt n o (hd true ws) i;
+      dO r <- asm_go tgt n (tl ws) (o + isize (hd true ws) i) P';
       Some (byte_of_opcode op :: ps ++ r)
   end.
 
 Definition assemble_with (ws : list bool) (P : code) : option (list Z) :=
-  asm_go (off ws P) (length P) ws 0 0 P.
+  asm_go (off ws P) (length P) ws 0 P.
 
 (* ---------- the emitter's choice of widths ---------- *)
 Fixpoint shorten_go (tgt : nat -> Z) (o : Z) (P : code) : list bool :=
@@ -170,8 +170,8 @@ Definition assemble (P : code) : option (list Z) := assemble_with (shorten P) P.
 
 
 (* widths are only looked at for jumps and calls: a normal form, to compare two choices *)
-Fixpoint norm_ws (ws : list bool) (k0 : nat) (P : code) : list bool :=
+Fixpoint norm_ws (ws : list bool) (P : code) : list bool :=
   match P with
   | [] => []
-  | i :: P' => (match jump_of i with Some _ => long_at ws k0 | None => true end) :: norm_ws ws (S k0) P'
+  | i :: P' => (match jump_of i with Some _ => hd true ws | None => true end) :: norm_ws (tl ws) P'
   end.
